@@ -52,6 +52,9 @@ func genC10(t *rapid.T) schedCase {
 	case 1, 2:
 		c.Hooks = "HOOKS-BAD" // plus entries that look eligible but cannot be started
 	}
+	if c.Policy = rapid.SampledFrom([]string{"", "", "score >= 3"}).Draw(t, "policy"); c.Policy != "" {
+		vlib.Class("agent-with-password-policy(stored passwords do not meet it)")
+	}
 	tag := 0
 	rounds := rapid.IntRange(1, 3).Draw(t, "rounds")
 	for r := 0; r < rounds; r++ {
